@@ -148,7 +148,23 @@ type judgeCtx struct {
 	// after a cancelled prune the live node may refuse state in [reached-1, bound-1)
 	// until restart. Refusals there are counted, not judged.
 	RefuseStateBelow uint64
+	// the interrupted prune was a cancelled one: it also lost the hash->number mapping of Target-1
+	HashLostAtTarget bool
+	// floors at which a cancelled prune stopped earlier in this scenario
+	CancelFloors map[uint64]bool `json:"-"`
 }
+
+func (c judgeCtx) prefix() string {
+	switch c.Name {
+	case "live":
+		return ""
+	case "crash-image":
+		return "crash-mid-prune:"
+	}
+	return c.Name + ":"
+}
+
+const classCancelHash = "cancel-mid-prune:parent-state-by-hash-lost-at-new-floor"
 
 type findings struct {
 	byClass map[string][]string
@@ -179,12 +195,7 @@ const classCrashKnown = "crash-mid-prune:retained-looking-block-damaged"
 //	state view n <  F-1           : refused, or equal to the twin's
 func judge(ix *index, c judgeCtx, F uint64, oP, oT chain.Obs, stats map[string]int) *findings {
 	fs := newFindings()
-	prefix := ""
-	if c.Crash {
-		prefix = "crash-mid-prune:"
-	} else if c.Name != "live" {
-		prefix = c.Name + ":"
-	}
+	prefix := c.prefix()
 	keys := make([]string, 0, len(oP)+8)
 	seen := map[string]struct{}{}
 	for k := range oP {
@@ -250,7 +261,8 @@ func judge(ix *index, c judgeCtx, F uint64, oP, oT chain.Obs, stats map[string]i
 				if p == t {
 					continue
 				}
-				if c.Crash && q.n+1 < c.Target {
+				byHash := strings.HasPrefix(q.view, "state/h")
+				if c.Crash && (q.n+1 < c.Target || (byHash && c.HashLostAtTarget && q.n+1 == c.Target)) {
 					fs.add(classCrashKnown, ex)
 					fs.knownN[q.n] = true
 					continue
@@ -260,6 +272,10 @@ func judge(ix *index, c judgeCtx, F uint64, oP, oT chain.Obs, stats map[string]i
 						continue
 					}
 					refusedReported[q.view] = true
+					if byHash && q.n+1 == F && c.CancelFloors[F] {
+						fs.add(classCancelHash, fmt.Sprintf("%s (block %d = floor-1, floor %d): pruned=%q twin answers", q.view, q.n, F, oP[q.view]))
+						continue
+					}
 					if q.n+1 < c.RefuseStateBelow {
 						stats["cancel_live_state_refused_between_reached_and_target"]++
 						continue
